@@ -198,5 +198,15 @@ def run(P, R, tier):
                     c = cone(du, v, du.stmt_of(st2), interproc=False)
                     means_of = any(a.endswith(".means") for a in c.attrs)
     R.check(means_of, "NORM.models", KEY, f"{models} <- [m.means for m in {models}]", "", "machines given as models are not reduced to their means")
+    # a single (n_gaussians, n_features) model is expanded to one row of models
+    exp2d = False
+    for n_ in walk_no_nested(f.node):
+        if isinstance(n_, ast.If) and "ndim" in src(n_.test) and "2" in src(n_.test):
+            for st2, t2, v2, k2 in stores(n_):
+                if isinstance(t2, ast.Name) and t2.id == models and v2 is not None and (("None" in src(v2) or "newaxis" in src(v2) or "expand_dims" in src(v2) or "ndmin" in src(v2) or "reshape" in src(v2) or "atleast_3d" in src(v2))):
+                    exp2d = True
+    if not exp2d:
+        exp2d = any(isinstance(n_, ast.Call) and src(n_.func).split(".")[-1] in ("atleast_3d",) or (isinstance(n_, ast.Call) and any(kw.arg == "ndmin" and const_value(kw.value) == 3 for kw in n_.keywords)) for n_ in walk_no_nested(f.node))
+    R.check(exp2d, "NORM.models-2d", KEY, f"{models}: (C, D) -> (1, C, D)", "a single model gives one row of scores", "a single model given as a (n_gaussians, n_features) array is no longer expanded to one row: its Gaussians are scored as separate models")
     from ..engines import dtype as _dt
     _dt.check_function(P, R, KEY, raw_attrs=("n", "sum_px", "sum_pxx"))
